@@ -191,6 +191,12 @@ Proof.
       * apply Hall. eapply in_skipn_in; eauto.
 Qed.
 
+Lemma NoDup_app_l {A} (l l' : list A) : NoDup (l ++ l') -> NoDup l.
+Proof.
+  induction l' as [|a l' IH]; [now rewrite app_nil_r|].
+  intros H. apply NoDup_remove_1 in H. auto.
+Qed.
+
 Lemma bfind_unord_remove b x : fst (bfind_unord b x) = true ->
   Permutation (x :: remove_at (snd (bfind_unord b x)) b) b.
 Proof.
@@ -597,10 +603,11 @@ Section Proofs.
     split; [exact A|]. split; [auto|].
     assert (G : forall l, NoDup l -> Permutation (elems (tabs t') ++ dr) l -> NoDup (elems (tabs t'))).
     { intros l Hl Hp. apply Permutation_sym in Hp. apply (Permutation_NoDup Hp) in Hl.
-      now apply NoDup_app_remove_r in Hl. }
+      now apply NoDup_app_l in Hl. }
     destruct o as [[|]|]; destruct C as [C _].
-    - apply (G _ (NoDup_cons x (fun Hin => _) Hnd) C). Unshelve.
-      apply insert_true_notfound in E. apply cfind_complete in Hin; auto. congruence.
+    - assert (Hn : ~ In x (elems (tabs t))).
+      { intros Hin. apply insert_true_notfound in E. apply cfind_complete in Hin; auto. congruence. }
+      exact (G _ (NoDup_cons x Hn Hnd) C).
     - exact (G _ Hnd C).
     - exact (G _ Hnd C).
   Qed.
